@@ -4,3 +4,5 @@ import Absnfs.Rpc
 import Absnfs.RecordMark
 import Absnfs.Access
 import Absnfs.Auth
+import Absnfs.Handles
+import Absnfs.HandlesInv
